@@ -3,7 +3,7 @@
 From Coq Require Import List Bool ZArith NArith.
 From PC Require Import Base.Atoms Base.Xml Model.SchemaSyntax Model.Schema Gen.Schema141
                        Model.Bookkeeping Model.EmitGrammar Model.SchemaIncl
-                       Model.EmitDoc Proofs.BookProofs Proofs.SchemaIncl Proofs.EmitConf.
+                       Model.EmitDoc Proofs.BookProofs Proofs.SchemaIncl Proofs.EmitConf Proofs.MeshBook.
 Import ListNotations.
 
 (* ---- bookkeeping, for ALL models of a source / a primitive (Model/Bookkeeping.v: emit_source,
@@ -97,6 +97,18 @@ Proof.
   apply Nat.eqb_eq in H. now apply dup0_ids_unique.
 Qed.
 Print Assumptions C04_schema_valid.
+
+(* the bookkeeping clauses at the level of the whole <mesh> the writer model emits for a geometry
+   (sources, <vertices>, redirected primitives): every failure counter of Model/Bookkeeping.v
+   (array count, accessor source, count*stride, stride = params, primitive counts, VERTEX inputs)
+   is zero, for all geometry models whose sources reshape, whose primitives pass the
+   constructors' checks and whose VERTEX inputs read the source <vertices> is built on *)
+Theorem C04_mesh_bookkeeping : forall g,
+  wf_src (g_src0 g) -> Forall wf_src (g_sources g) -> Forall wf_prim (g_prims g) ->
+  Forall (vertex_sources_agree (g_vref g)) (g_prims g) ->
+  mesh_fails (mesh_of g) = [0; 0; 0; 0; 0; 0].
+Proof. exact mesh_bookkeeping. Qed.
+Print Assumptions C04_mesh_bookkeeping.
 
 (* ---- non-vacuity *)
 
